@@ -2002,8 +2002,9 @@ static void xstream_update_max_xstreams(ABTI_global *p_global, int newrank)
                 max_xstreams_warning_once = 1;
             }
         }
-        /* Anyway. let's increase max_xstreams. */
-        p_global->max_xstreams = newrank + 1;
+        /* Anyway. let's increase max_xstreams (saturating: rank INT_MAX is a
+         * valid rank, newrank + 1 would overflow). */
+        p_global->max_xstreams = (newrank == INT_MAX) ? INT_MAX : newrank + 1;
     }
 }
 
